@@ -51,6 +51,10 @@ type World struct {
 	Stats map[string]int64
 	Kinds map[string]int // operations by kind
 	gin   *gin.Engine
+	// CheckJobs makes RunJob verify each job's row diff against its criterion
+	CheckJobs bool
+	// NoJobs makes RunJob a no-op that still takes its time slot (twin runs)
+	NoJobs bool
 }
 
 type OpRec struct {
@@ -59,6 +63,7 @@ type OpRec struct {
 	Op   string `json:"op"`
 	Args string `json:"args,omitempty"`
 	Res  string `json:"res,omitempty"`
+	Obs  string `json:"obs,omitempty"` // canonical client-visible observation (for twin comparison)
 }
 
 type Viol struct {
@@ -107,6 +112,9 @@ func (w *World) rec(op, args, res string) {
 		w.Ops = append(w.Ops, OpRec{I: len(w.Ops), At: ts(w.now()), Op: op, Args: args, Res: res})
 	}
 }
+
+// Violate records a violation from outside the package.
+func (w *World) Violate(prop, sig, format string, a ...any) { w.violate(prop, sig, format, a...) }
 
 func (w *World) violate(prop, sig, format string, a ...any) {
 	msg := fmt.Sprintf(format, a...)
@@ -828,6 +836,14 @@ func (w *World) Pull(name string, max int) []*pubsubpb.ReceivedMessage {
 		n = len(resp.ReceivedMessages)
 	}
 	w.rec("pull", fmt.Sprintf("%s max=%d", name, max), fmt.Sprintf("%s n=%d", code(err), n))
+	if resp != nil {
+		var obs []string
+		for _, rm := range resp.ReceivedMessages {
+			obs = append(obs, fmt.Sprintf("%s#%d", short(rm.Message.MessageId), rm.DeliveryAttempt))
+		}
+		sort.Strings(obs)
+		w.Ops[len(w.Ops)-1].Obs = strings.Join(obs, ",")
+	}
 	s, live := w.Subs[name]
 	if !live {
 		w.expectCode("C12", "Pull(dead sub)", err, codes.NotFound)
@@ -1104,6 +1120,10 @@ func (w *World) CreateSnapshot(name, sub string) {
 	if s.Wild {
 		return
 	}
+	if !s.Topic.Live {
+		w.expectCode("C12", "CreateSnapshot(subscription whose topic is deleted)", err, codes.NotFound)
+		return
+	}
 	if !w.expectCode("C12", "CreateSnapshot", err, codes.OK) {
 		return
 	}
@@ -1225,6 +1245,14 @@ const ExpireJob = "delete-expired-subscriptions"
 // RunJob runs one iteration of a prune/expire job through the service's runOnce.
 func (w *World) RunJob(name string, minAge time.Duration, maxDelete int) (int, error) {
 	w.slot()
+	if w.NoJobs && name != ExpireJob {
+		w.rec("job-skipped", fmt.Sprintf("%s minAge=%v max=%d", name, minAge, maxDelete), "")
+		return 0, nil
+	}
+	var before rig.Dump
+	if w.CheckJobs {
+		before, _ = rig.TakeDump(w.E.RawDB())
+	}
 	lo := w.now()
 	n, err := services.VerifPruneRunOnce(w.Ctx, w.E.Client, name, actions.PruneCommonParams{MinAge: minAge, MaxDelete: maxDelete})
 	hi := w.now()
@@ -1235,10 +1263,129 @@ func (w *World) RunJob(name string, minAge time.Duration, maxDelete int) (int, e
 	w.rec("job", fmt.Sprintf("%s minAge=%v max=%d", name, minAge, maxDelete), res)
 	w.stat("jobs_run", 1)
 	w.stat("job_rows_deleted", int64(n))
+	if err != nil {
+		w.stat("job_errors", 1)
+	}
+	if w.CheckJobs && before != nil {
+		after, _ := rig.TakeDump(w.E.RawDB())
+		w.checkJobDiff(name, minAge, maxDelete, n, err, before, after, lo, hi)
+	}
 	if name == ExpireJob && err == nil {
 		w.applyExpiry(lo, hi, n, maxDelete)
 	}
 	return n, err
+}
+
+func parseT(s string) (time.Time, bool) {
+	if s == "NULL" || s == "" {
+		return time.Time{}, false
+	}
+	t, err := time.Parse(time.RFC3339Nano, s)
+	return t, err == nil
+}
+
+// checkJobDiff: a maintenance job may only delete rows that meet its documented
+// criterion, at most max_delete of them, and change nothing else (apart from the
+// predecessor link of a surviving delivery being cleared when its predecessor
+// row goes away).
+func (w *World) checkJobDiff(job string, minAge time.Duration, maxDelete, n int, jerr error, before, after rig.Dump, lo, hi time.Time) {
+	idx := func(d rig.Dump, t string) map[string]rig.Row {
+		m := map[string]rig.Row{}
+		for _, r := range d[t] {
+			m[r["id"]] = r
+		}
+		return m
+	}
+	bad := func(sig, f string, a ...any) {
+		w.violate("C15", "job-diff:"+job+":"+sig, "%s (minAge %v, max %d) at %s: %s", job, minAge, maxDelete, ts(lo), fmt.Sprintf(f, a...))
+	}
+	cut := hi.Add(-minAge)
+	deleted := 0
+	bsubs, btopics, bdels := idx(before, "subscriptions"), idx(before, "topics"), idx(before, "deliveries")
+	hasDel := map[string]bool{} // message id / subscription id -> has a delivery row (before)
+	hasSubOfTopic := map[string]bool{}
+	for _, r := range before["deliveries"] {
+		hasDel["m:"+r["message_id"]] = true
+		hasDel["s:"+r["subscription_id"]] = true
+	}
+	for _, r := range before["subscriptions"] {
+		hasSubOfTopic[r["topic_id"]] = true
+	}
+	for _, t := range rig.Tables {
+		am := idx(after, t)
+		for id, r := range idx(before, t) {
+			ra, still := am[id]
+			if !still {
+				deleted++
+				ok := false
+				switch {
+				case job == "prune-completed-deliveries" && t == "deliveries":
+					c, set := parseT(r["completed_at"])
+					ok = set && !c.After(cut)
+				case job == "prune-expired-deliveries" && t == "deliveries":
+					x, set := parseT(r["expires_at"])
+					ok = set && x.Before(hi)
+				case job == "prune-completed-messages" && t == "messages":
+					p, set := parseT(r["published_at"])
+					ok = set && !p.After(cut) && !hasDel["m:"+id]
+				case job == "prune-deleted-subscription-deliveries" && t == "deliveries":
+					sub := bsubs[r["subscription_id"]]
+					d, set := parseT(sub["deleted_at"])
+					ok = set && !d.After(cut)
+				case job == "prune-deleted-subscriptions" && t == "subscriptions":
+					d, set := parseT(r["deleted_at"])
+					ok = set && !d.After(cut) && !hasDel["s:"+id]
+				case job == "prune-deleted-topics" && t == "topics":
+					d, set := parseT(r["deleted_at"])
+					ok = set && !d.After(cut) && !hasSubOfTopic[id]
+				}
+				if !ok {
+					bad("removed-row-outside-criterion:"+t, "deleted %s row %v which does not meet the job's criterion", t, r)
+				}
+				continue
+			}
+			for c, v := range r {
+				if ra[c] == v {
+					continue
+				}
+				switch {
+				case t == "deliveries" && c == "not_before_id" && ra[c] == "NULL":
+					if _, gone := idx(after, "deliveries")[v]; gone {
+						bad("cleared-live-predecessor-link", "cleared not_before_id of delivery %s although the predecessor row %s still exists", id, v)
+					}
+				case job == ExpireJob && t == "subscriptions" && (c == "deleted_at" || c == "live"):
+					x, set := parseT(r["expires_at"])
+					if !(set && x.Before(hi)) {
+						bad("expired-live-subscription", "soft-deleted subscription %s whose expires_at %s is not in the past", r["name"], r["expires_at"])
+					}
+				case t == "subscriptions" && c == "dead_letter_topic_id" && ra[c] == "NULL" && r["deleted_at"] != "NULL":
+					// a soft-deleted subscription is invisible to clients
+				case t == "subscriptions" && c == "dead_letter_topic_id" && ra[c] == "NULL" && r["deleted_at"] == "NULL":
+					bad("live-subscription-config-changed", "live subscription %s lost its dead-letter policy (dead_letter_topic_id %s -> NULL)", r["name"], v)
+				default:
+					bad("changed-column:"+t+"."+c, "changed %s[%s].%s from %q to %q", t, r["name"], c, v, ra[c])
+				}
+			}
+		}
+		for id := range am {
+			if _, was := idx(before, t)[id]; !was {
+				bad("created-row:"+t, "created a %s row %s", t, id)
+			}
+		}
+	}
+	_ = btopics
+	_ = bdels
+	if deleted > maxDelete {
+		bad("more-than-max-delete", "deleted %d rows, max_delete is %d", deleted, maxDelete)
+	}
+	if jerr == nil && job != ExpireJob && deleted != n {
+		bad("count-mismatch", "reported %d deleted rows, %d rows are gone", n, deleted)
+	}
+	if jerr != nil && deleted > 0 {
+		bad("error-but-deleted", "returned an error (%v) yet %d rows are gone", jerr, deleted)
+	}
+	w.stat("job_diffs_checked", 1)
+	w.stat("job_rows_checked_against_criterion", int64(deleted))
 }
 
 func (w *World) applyExpiry(lo, hi time.Time, n, maxDelete int) {
